@@ -402,6 +402,10 @@ def execute(sc):
                         violation = {"kind": "poisoned-after-read-error", "site": op["op"], "detail": "retry after a read error differs from the reference", "op_index": i}
                         break
 
+    if violation is None and sim.race is not None:
+        r_ = sim.race
+        violation = {"kind": "array-modified-while-task-parked", "site": r_["function"],
+                     "detail": f"array `{r_['variable']}` (shape {r_['shape']}) held by {r_['function']}() changed while that task was parked at {r_['parked_at']}: another task wrote into it"}
     st = sim.stats
     nontrivial = st["switches"] > 0 or st["cache_clears"] > 0 or st["dup_exec"] > 0 or delivered_f8 > 0 or st["max_inflight"] > 1
     res = {
